@@ -33,7 +33,7 @@ fn witness_roundtrip_clock_values() {
         for fen in [
             format!("r3k2r/pppq1ppp/2n2n2/3pp3/3PP3/2N2N2/PPPQ1PPP/R3K2R w KQkq - {} 200", clock),
             format!("r3k2r/pppq1ppp/2n2n2/3pp3/3PP3/2N2N2/PPPQ1PPP/R3K2R b KQkq - {} 200", clock),
-            format!("8/P6k/8/3pP3/8/8/6p1/K6R w - d6 {} 90", clock),
+            format!("8/P5k1/8/3pP3/8/8/6p1/K6R w - d6 {} 90", clock),
             format!("8/P6k/8/8/3pP3/8/6p1/K6R b - e3 {} 90", clock),
         ] {
             bad += round_trip(&fen);
